@@ -3,12 +3,13 @@
 // Every case builds a sandbox  <sb>/work/tree (the tree to remove, decorated with symbolic links of
 // every class) next to <sb>/outside/... and <sb>/work/sibling..., runs one removal entry point through
 // a VFS over the fsmon decorator, and judges:
-//   O1 snapshot of everything outside the tree is unchanged (existence, kind, content, link target,
-//      mtime of outside directories other than the tree's parent);
-//   O2 every successful mutating backend operation has a physical path (parent resolved with
-//      EvalSymlinks before the operation runs) inside the tree's physical root;
-//   O3 nil result without patterns ⇒ the tree (CleanDir: its content) is really gone, dangling links included;
-//   O4 entries whose name is fully matched by an exclusion pattern survive together with their ancestors.
+//
+//	O1 snapshot of everything outside the tree is unchanged (existence, kind, content, link target,
+//	   mtime of outside directories other than the tree's parent);
+//	O2 every successful mutating backend operation has a physical path (parent resolved with
+//	   EvalSymlinks before the operation runs) inside the tree's physical root;
+//	O3 nil result without patterns ⇒ the tree (CleanDir: its content) is really gone, dangling links included;
+//	O4 entries whose name is fully matched by an exclusion pattern survive together with their ancestors.
 package main
 
 import (
@@ -38,17 +39,17 @@ import (
 var entryPoints = []string{"Rm", "RemoveWithContext", "RemoveWithContextAndExclusionPatterns", "RemoveWithPrivileges",
 	"CleanDir", "CleanDirWithContext", "CleanDirWithContextAndExclusionPatterns", "GarbageCollect", "GarbageCollectWithContext"}
 
-var linkClasses = []string{"file-inside", "dir-inside", "file-outside", "dir-outside", "ancestor-inside", "ancestor-of-root", "self", "dangling", "chain", "dir-outside-abs", "sibling-dir"}
+var linkClasses = []string{"file-inside", "dir-inside", "file-outside", "dir-outside", "ancestor-inside", "ancestor-of-root", "self", "dangling", "chain", "dir-outside-abs", "sibling-dir", "dir-outside-readonly"}
 
 type caseSpec struct {
-	Index    int            `json:"index"`
-	Backend  string         `json:"backend"`
-	EP       string         `json:"entry_point"`
-	Patterns []string       `json:"patterns,omitempty"`
-	RootLink bool           `json:"tree_root_is_link,omitempty"`
-	GCAge    string         `json:"gc_age,omitempty"`
-	FailRemove int          `json:"fail_kth_remove,omitempty"` // >0: the k-th Remove/RemoveAll backend operation fails with EPERM (not executed)
-	Nodes    []treegen.Node `json:"tree"`
+	Index      int            `json:"index"`
+	Backend    string         `json:"backend"`
+	EP         string         `json:"entry_point"`
+	Patterns   []string       `json:"patterns,omitempty"`
+	RootLink   bool           `json:"tree_root_is_link,omitempty"`
+	GCAge      string         `json:"gc_age,omitempty"`
+	FailRemove int            `json:"fail_kth_remove,omitempty"` // >0: the k-th Remove/RemoveAll backend operation fails with EPERM (not executed)
+	Nodes      []treegen.Node `json:"tree"`
 }
 
 func genCase(r *vrun.Run, idx int) caseSpec {
@@ -103,6 +104,8 @@ func genCase(r *vrun.Run, idx int) caseSpec {
 				tgt = up + "../../outside/odir"
 			case "dir-outside-abs":
 				tgt = "@SB@/outside/odir"
+			case "dir-outside-readonly":
+				tgt = up + "../../outside/rodir"
 			case "sibling-dir":
 				tgt = up + "../sibling"
 			case "ancestor-inside":
@@ -145,6 +148,11 @@ func genCase(r *vrun.Run, idx int) caseSpec {
 		for k := 0; k < np && len(names) > 0; k++ {
 			c.Patterns = append(c.Patterns, "^"+names[rng.IntN(len(names))]+"$")
 		}
+		// an empty pattern names nothing (e.g. the result of splitting "a,,b"): the patterns after it still protect
+		if len(c.Patterns) > 0 && rng.IntN(3) == 0 {
+			at := rng.IntN(len(c.Patterns))
+			c.Patterns = append(c.Patterns[:at], append([]string{""}, c.Patterns[at:]...)...)
+		}
 	}
 	if strings.HasPrefix(c.EP, "GarbageCollect") {
 		c.GCAge = []string{"all", "some", "none"}[rng.IntN(3)]
@@ -157,12 +165,12 @@ func genCase(r *vrun.Run, idx int) caseSpec {
 }
 
 type opRec struct {
-	Op    string `json:"op"`
-	Path  string `json:"path"`
-	Phys  string `json:"physical"`
-	Err   string `json:"err,omitempty"`
-	Inside bool  `json:"inside"`
-	Via   string `json:"via_link_class,omitempty"`
+	Op     string `json:"op"`
+	Path   string `json:"path"`
+	Phys   string `json:"physical"`
+	Err    string `json:"err,omitempty"`
+	Inside bool   `json:"inside"`
+	Via    string `json:"via_link_class,omitempty"`
 }
 
 // physicalFollow resolves the whole path (operations such as chown, chmod, chtimes and open-for-write follow a final link).
@@ -218,6 +226,10 @@ func runCase(r *vrun.Run, c caseSpec, scratch string) {
 	must(r, os.WriteFile(filepath.Join(outside, "precious.txt"), []byte("precious"), 0o644))
 	must(r, os.WriteFile(filepath.Join(outside, "odir", "o1.txt"), []byte("o1"), 0o644))
 	must(r, os.WriteFile(filepath.Join(outside, "odir", "deep", "o2.txt"), []byte("o2"), 0o644))
+	must(r, os.MkdirAll(filepath.Join(outside, "rodir", "inner"), 0o755))
+	must(r, os.WriteFile(filepath.Join(outside, "rodir", "r1.txt"), []byte("r1"), 0o444))
+	must(r, os.Chmod(filepath.Join(outside, "rodir", "inner"), 0o555))
+	must(r, os.Chmod(filepath.Join(outside, "rodir"), 0o555))
 	must(r, os.MkdirAll(filepath.Join(work, "sibling"), 0o755))
 	must(r, os.WriteFile(filepath.Join(work, "sibling", "s.txt"), []byte("s"), 0o644))
 	must(r, os.WriteFile(filepath.Join(work, "treefile.txt"), []byte("next to the tree"), 0o644))
@@ -343,7 +355,7 @@ func runCase(r *vrun.Run, c caseSpec, scratch string) {
 		}
 	}
 	// O1
-	diff := snap.Diff(before, after, snap.Options{MTime: true, Owner: true}, func(rel string) bool {
+	diff := snap.Diff(before, after, snap.Options{MTime: true, Owner: true, Mode: true}, func(rel string) bool {
 		if snap.Under(rel, relTree) || snap.Under(rel, relReal) {
 			return false
 		}
@@ -435,7 +447,7 @@ func linkSummary(classes map[string]bool) string {
 	var l []string
 	for k := range classes {
 		switch k {
-		case "dir-outside", "dir-outside-abs", "sibling-dir", "ancestor-of-root":
+		case "dir-outside", "dir-outside-abs", "sibling-dir", "ancestor-of-root", "dir-outside-readonly":
 			l = append(l, "link-to-directory-outside")
 		case "file-outside":
 			l = append(l, "link-to-file-outside")
